@@ -65,3 +65,30 @@ func factsResolver(o *out, suite pkgFiles) {
 	o.line("def resolver : Resolve.ResolveFacts := { emptyCheck := %s, inlineFirst := %s, cacheable := %s, keyIsDesc := %s, targetTag := %s }",
 		emptyCheck, leanBool(inlineFirst), leanBool(cacheable), leanBool(keyIsDesc), leanBool(targetTag))
 }
+
+// factsHandlers: how UpdateResource / RegisterXDSUpdateHandler feed the update handlers.
+func factsHandlers(o *out, mgr pkgFiles) {
+	view, first, replay := ".other", false, false
+	if fd := mgr.findFunc("xdsResourceManager", "UpdateResource"); fd != nil {
+		b := norm(src(fd.Body))
+		switch {
+		case strings.Contains(b, "for _, handler := range handlers { handler(up) }"):
+			view = ".update"
+		case inOrder(b, "view := up", "if !rt.RequireFullADSResponse() {", "view = make(map[string]xdsresource.Resource, len(m.cache[rt])+len(up))",
+			"for name, res := range m.cache[rt] { view[name] = res }", "for name, res := range up { view[name] = res }",
+			"for _, handler := range handlers { handler(view) }"):
+			view = ".merged"
+		default:
+			o.note("handlers: handler call in UpdateResource not recognised")
+		}
+		hi := strings.Index(b, "handler(")
+		wi := strings.Index(b, "m.cache[rt][name] = res")
+		first = strings.HasPrefix(b, "{ m.mu.Lock() defer m.mu.Unlock()") && hi >= 0 && wi >= 0 && hi < wi
+	}
+	if fd := mgr.findFunc("xdsResourceManager", "RegisterXDSUpdateHandler"); fd != nil {
+		b := norm(src(fd.Body))
+		replay = strings.HasPrefix(b, "{ m.mu.Lock() defer m.mu.Unlock()") &&
+			inOrder(b, "m.xdsHandlers[resourceType] = append(m.xdsHandlers[resourceType], handler)", "res, ok := m.cache[resourceType]", "if ok { handler(res) }")
+	}
+	o.line("def handlers : Handlers.HandlerFacts := { mergeView := %s, handlersFirst := %s, replayOnRegister := %s }", view, leanBool(first), leanBool(replay))
+}
